@@ -6,7 +6,7 @@ FAMILY = "sha"
 RULE = ("mode 1: message lengths concentrated on the padding boundaries (0,1,55,56,57,63,64,65,119,120,127,128,...) "
         "fed in a random split of update calls (empty updates included; all split points for short messages in "
         "thorough); mode 2: HMAC with keys of 0,1,32,63,64,65,131 bytes; mode 3: verify with the correct tag, 31/33 "
-        "bytes, every single-bit flip. Oracle: python hashlib/hmac (independent third implementation). "
+        "bytes, every single-bit flip, several tag bytes changed so that the differences cancel under + / xor. Oracle: python hashlib/hmac (independent third implementation). "
         "non-trivial = every case; distinct = distinct implementation outputs")
 ASSUMPTIONS = ["messages shorter than 2^61 bytes for agreement with FIPS proper (the theorem itself needs no bound)"]
 TRUSTED = ["extraction: ExtrOcamlBasic only", "harness/impl_sha.cpp", "python hashlib as oracle"]
@@ -60,8 +60,21 @@ def generate(rng, tier):
             key = [rng.randrange(256) for _ in range(rng.choice([0, 32, 64, 65, 131]))]
             data = [rng.randrange(256) for _ in range(rng.choice([0, 1, 55, 64, 100]))]
             mac = list(pyhmac.new(bytes(key), bytes(data), hashlib.sha256).digest())
-            k = rng.randrange(6)
-            if k == 0:
+            k = rng.randrange(9)
+            if k >= 6:
+                kk = rng.choice([2, 2, 3, 4, 8, 32])
+                idx = rng.sample(range(32), kk)
+                if k == 6:
+                    d0 = rng.randrange(1, 256); diffs = [d0, 256 - d0] + [0] * (kk - 2)
+                elif k == 7:
+                    d0 = rng.choice([0x80, rng.randrange(1, 256)]); diffs = [d0, d0] + [0] * (kk - 2)
+                else:
+                    diffs = [rng.randrange(1, 256) for _ in range(kk - 1)]
+                    diffs.append((-sum(diffs)) % 256 or 128)
+                for j, d in zip(idx, diffs):
+                    mac[j] ^= d & 255
+                tag = "verify-multi"
+            elif k == 0:
                 tag = "verify-good"
             elif k == 1:
                 mac = mac[:31]; tag = "verify-31"
